@@ -177,8 +177,8 @@ def run(rep, tier, seed):
     # the decoder's length block is translated from the source on every run (gen/py2lean.py -> GenK.decodeLength;
     # Props/C09.source_length_decoding_is_model); the translation is run against the real decoder here
     from harness import kernels
-    kernels.obligations(rep, ['decodeLength', 'decodeTag', 'bitsFromOctets', 'bitsDecode', 'fromBytes'])
-    kernels.check(rep, drv, seed, 300 if tier == 'quick' else 20000, which=('decodeLength', 'decodeTag', 'bitsDecode'))
+    kernels.obligations(rep, ['decodeLength', 'decodeTag', 'bitsFromOctets', 'bitsDecode', 'fromBytes', 'intDecode', 'berBoolDec'])
+    kernels.check(rep, drv, seed, 300 if tier == 'quick' else 20000, which=('decodeLength', 'decodeTag', 'bitsDecode', 'berBoolDec'))
     rep.case('all TRUE octets', nontrivial=True)
     check_all_true_octets(rep)
     n = 1200 if tier == 'quick' else 40000
